@@ -46,6 +46,40 @@ extern "C" int cpp_decrypt(int family, int alg, const unsigned char *key, const 
                 unsigned char *m, const unsigned char *c, size_t clen, const unsigned char *ad, size_t adlen)
 { DISPATCH(dec, nonce, m, c, clen, ad, adlen) }
 
+/* the byte_array overloads (aead.h): form 1 = the two-argument overload when there is no associated data, form 2 = always the three-argument overload;
+ * the output array arrives holding presize bytes of 0xCC.  Results: size of the output array (its first bytes copied to the caller's buffer), -1 = decrypt returned false
+ * with an empty array, -3000 = a C++ exception left the call, -4000 = decrypt returned false but left bytes in the output array */
+#include <ascon/utility.h>
+template <class T> static int enc_ba(const unsigned char *key, size_t klen, const unsigned char *nonce,
+    unsigned char *c, const unsigned char *m, size_t mlen, const unsigned char *ad, size_t adlen, int form, size_t presize)
+{
+    T obj;
+    if (!obj.set_key(key, klen)) return -1000;
+    obj.set_nonce(nonce, 16);
+    ascon::byte_array bm = ascon::bytes_from_data(m, mlen), bad = ascon::bytes_from_data(ad, adlen), bc(presize, 0xCC);
+    try { if (form == 1 && !adlen) obj.encrypt(bc, bm); else obj.encrypt(bc, bm, bad); } catch (...) { return -3000; }
+    size_t n = bc.size(), k = n < mlen + 16 ? n : mlen + 16; if (k) memcpy(c, bc.data(), k);
+    return (int)n;
+}
+template <class T> static int dec_ba(const unsigned char *key, size_t klen, const unsigned char *nonce,
+    unsigned char *m, const unsigned char *c, size_t clen, const unsigned char *ad, size_t adlen, int form, size_t presize)
+{
+    T obj;
+    if (!obj.set_key(key, klen)) return -1000;
+    obj.set_nonce(nonce, 16);
+    ascon::byte_array bc = ascon::bytes_from_data(c, clen), bad = ascon::bytes_from_data(ad, adlen), bm(presize, 0xCC); bool ok;
+    try { ok = (form == 1 && !adlen) ? obj.decrypt(bm, bc) : obj.decrypt(bm, bc, bad); } catch (...) { return -3000; }
+    if (!ok) { if (bm.size()) return -4000; if (clen > 16) memset(m, 0, clen - 16); return -1; }   /* an empty array releases nothing: the caller's buffer reads as wiped */
+    size_t n = bm.size(), k = (clen >= 16 && n > clen - 16) ? clen - 16 : n; if (k) memcpy(m, bm.data(), k);
+    return (int)n;
+}
+extern "C" int cpp_encrypt_ba(int family, int alg, const unsigned char *key, const unsigned char *nonce,
+                unsigned char *c, const unsigned char *m, size_t mlen, const unsigned char *ad, size_t adlen, int form, size_t presize)
+{ DISPATCH(enc_ba, nonce, c, m, mlen, ad, adlen, form, presize) }
+extern "C" int cpp_decrypt_ba(int family, int alg, const unsigned char *key, const unsigned char *nonce,
+                unsigned char *m, const unsigned char *c, size_t clen, const unsigned char *ad, size_t adlen, int form, size_t presize)
+{ DISPATCH(dec_ba, nonce, m, c, clen, ad, adlen, form, presize) }
+
 /* the same through the key constructors (T(key) for the AEAD/masked/SIV classes, T(key, len) for ISAP) */
 template <class T> static int enc_c1(const unsigned char *key, size_t klen, const unsigned char *nonce,
     unsigned char *c, const unsigned char *m, size_t mlen, const unsigned char *ad, size_t adlen)
@@ -91,6 +125,8 @@ template <class T> static int enc_rk(const unsigned char *key, size_t klen, cons
     obj.set_nonce(OTHER, 16); obj.encrypt(tmp, OTHER, 9, 0, 0);
     obj.set_nonce(nonce, 16);                      /* the nonce is set BEFORE the new key: set_key is documented to leave it as it is */
     if (!(zero ? obj.set_key(key, 0) : obj.set_key(key, klen))) return -1001;
+    /* refused keying calls (unsupported length, null pointer with a length) return false and leave the accepted key in place */
+    if (obj.set_key(key, klen + 1) || obj.set_key(key, 7) || obj.set_key(0, klen)) return -1002;
     return obj.encrypt(c, m, mlen, ad, adlen);
 }
 extern "C" int cpp_encrypt_rekey(int family, int alg, const unsigned char *key, const unsigned char *nonce,
@@ -98,8 +134,9 @@ extern "C" int cpp_encrypt_rekey(int family, int alg, const unsigned char *key, 
 { DISPATCH(enc_rk, nonce, c, m, mlen, ad, adlen) }
 
 /* hash / XOF classes: message given in two update calls (raw pointers), digest through finalize / squeeze; the fixed-length templates for 32 and 64 bytes */
-template <class H> static void hash_cpp(const unsigned char *m, size_t n, unsigned char *out) { H h; h.update(m, n / 3); h.update(m + n / 3, n - n / 3); h.finalize(out); }
-template <class X> static void xof_cpp(const unsigned char *m, size_t n, unsigned char *out, size_t outlen) { X x; x.absorb(m, n / 2); x.absorb(m + n / 2, n - n / 2); x.squeeze(out, outlen / 2); x.squeeze(out + outlen / 2, outlen - outlen / 2); }
+/* every other call works on an object with a past: used (also finalised / squeezed, alternately), then reset() */
+template <class H> static void hash_cpp(const unsigned char *m, size_t n, unsigned char *out) { H h; static unsigned past; past++; if (past & 1) { unsigned char t[32]; h.update(m, n ? 1 : 0); if (past & 2) h.finalize(t); h.reset(); } h.update(m, n / 3); h.update(m + n / 3, n - n / 3); h.finalize(out); }
+template <class X> static void xof_cpp(const unsigned char *m, size_t n, unsigned char *out, size_t outlen) { X x; static unsigned past; past++; if (past & 1) { unsigned char t[9]; x.absorb(m, n ? 1 : 0); if (past & 2) x.squeeze(t, 9); x.reset(); } x.absorb(m, n / 2); x.absorb(m + n / 2, n - n / 2); x.squeeze(out, outlen / 2); x.squeeze(out + outlen / 2, outlen - outlen / 2); }
 extern "C" void cpp_hash(int a, const unsigned char *m, size_t n, unsigned char *out) { if (a) hash_cpp<ascon::hasha>(m, n, out); else hash_cpp<ascon::hash>(m, n, out); }
 extern "C" void cpp_xof(int a, size_t declared, const unsigned char *m, size_t n, unsigned char *out, size_t outlen)
 {
